@@ -181,6 +181,14 @@ def run : List String → String
         if Capnp.Spec.Value.eq 200 va (Capnp.Spec.Value.mapCap (fun j => (j + shift) % 8) vb) then "true" else "false"
       | _, _ => "invalid"
     | _, _, _ => "bad-op"
+  | ["equalin", segs] =>         -- the same equality on two pointers of one message (pointer fields 0 and 1 of the root)
+    match parseSegs segs with
+    | some sg =>
+      match Capnp.Spec.Value.decodeRoot sg with
+      | some (.struct _ (p0 :: p1 :: _)) => if Capnp.Spec.Value.eq 200 p0 p1 then "true" else "false"
+      | _ => "invalid"
+    | none => "bad-op"
+  | ["equalsym", _, _, _] => "ok"   -- Props.C17.eq_symm / eq_refl: whatever the capability table holds
   | ["canon", segs] =>           -- the spec's canonical bytes of the decoded root struct
     match parseSegs segs with
     | some sg =>
